@@ -289,8 +289,12 @@ def _run(ctx, thorough, procs, scratch):
         else:
             _G["parsers"]["regenerated"] = regen
             regen_note = info
+    for prs in _G["parsers"].values():
+        ir_expr.warm_up(prs, ir_expr.CONTEXTS if thorough else ("rhs",))
     par.start(procs)
 
+    import time
+    t_start = time.time()
     corpora = []   # (name, programs)
     # the TLC runs are independent: start the derived-tree run alongside the enumerations
     with ThreadPoolExecutor(2) as bg:
@@ -304,11 +308,13 @@ def _run(ctx, thorough, procs, scratch):
                                    slices=8, procs=max(1, min(8, procs // 2)), timeout=3000)
             corpora.append(("representative=4", progs4))
         else:
-            progs, envobj = tlc_corpus(ctx, "ExprSyntax_quick.cfg", "all trees with <= 2 operators (full set) and 3 operators (representatives), every printing")
+            progs, envobj = tlc_corpus(ctx, "ExprSyntax_quick.cfg", "all trees with <= 2 operators (full set) and 3 operators (representatives), every printing",
+                                       slices=4, procs=4)
             corpora.append(("exhaustive<=2+rep3", progs))
         dprogs, _ = fut.result()
     corpora.append(("derived", dprogs))
 
+    t_tlc = time.time()
     envs_raw = envobj["envs"]
     envs = [ir_expr.env_from_spec(e) for e in envs_raw]
     selftest(envs)
@@ -356,6 +362,7 @@ def _run(ctx, thorough, procs, scratch):
         ctx.sample({"text": text_of(p), "expected": p.get("vals", p.get("expect")), "distinguishing_env": p.get("denv"),
                     "other_bracketings": p.get("nalts")})
     ctx.extra["corpora"] = per
+    ctx.extra["phase_seconds"] = {"regenerate+fork": round(t_start - ctx.t0, 1), "tlc": round(t_tlc - t_start, 1), "parse+compare": round(time.time() - t_tlc, 1)}
     ctx.extra["per_root_class"] = {r: sum(1 for p in allprogs if p["kind"] == "expr" and p["shape"][0] == r) for r in sorted(roots)}
     ctx.extra["per_printing"] = {m: sum(1 for p in allprogs if p["kind"] == "expr" and p["pm"] == m) for m in sorted(pms)}
     ctx.extra["literal_programs"] = {k: sum(1 for p in allprogs if p["kind"] == k) for k in ("num", "big", "str", "bool")}
